@@ -1,4 +1,5 @@
 import QuillModel.Backend.Ops
+import QuillModel.Backend.UOps
 import QuillModel.Drivers.Util
 /-!
 Correspondence driver for the backend model: replays the script executed by `harness/h2_backend.cpp` on
@@ -69,6 +70,32 @@ def exec (s : BSt) (w : List String) : BSt × String :=
   | some op => applyOp s op
   | none => (s, "bad-op")
 
+/-! the two unbounded builds: the same script language plus `SH a want` / `QC a` -/
+
+def parseUFOp : List String → Option UFOp
+  | ["SH", a, w] => some (.shrink (nat! a) (nat! w))
+  | ["QC", a] => some (.capq (nat! a))
+  | w => (parseFOp w).map .base
+
+def parseInjectU (w : String) : Option (Nat × Nat × List UFOp) :=
+  if !w.startsWith "@" then none else
+  match (String.ofList (w.toList.drop 1)).splitOn "=" with
+  | [sk, ops] =>
+    match sk.splitOn "." with
+    | [a, b] => some (nat! a, nat! b, (ops.splitOn ",").filterMap (fun o => parseUFOp (o.splitOn "_")))
+    | _ => none
+  | _ => none
+
+def parseUOp : List String → Option Backend.UOp
+  | "P" :: rest => some (.poll (rest.filterMap parseInjectU))
+  | ["X"] => some .exit
+  | w => (parseUFOp w).map .front
+
+def execU (u : UP) (s : BSt) (w : List String) : BSt × String :=
+  match parseUOp w with
+  | some op => applyOpU u s op
+  | none => (s, "bad-op")
+
 structure Setup where
   grace : Nat := 0
   soft : Nat := 4096
@@ -83,7 +110,12 @@ structure Setup where
   reportFlush : Bool := true
   keepUnreported : Bool := true
   flushInvalid : Bool := true
+  unbounded : Bool := false
+  qmax : Nat := 4096
+  follow : Bool := true
   replayCatch : Bool := true
+  flushInt : Nat := 0          -- ns
+  flushBeforeErase : Bool := true
   sinks : List Sink := []
   lgs : List Lg := []
 
@@ -93,8 +125,11 @@ def mkState (u : Setup) (hdr strOv now : Nat) : BSt :=
              strOverhead := strOv, batchPct := u.batchPct, qp := qp, invalidBits := u.invalidBits,
              refreshAfterSample := u.refreshAfter, catchAllFormat := u.catchAll,
              reportBeforeFlushCleanup := u.reportFlush, cleanupKeepsUnreported := u.keepUnreported, flushInvalidatedLoggers := u.flushInvalid,
-             replayCatchesPerEvent := u.replayCatch },
-    now := now, sinks := u.sinks, lgs := u.lgs,
+             replayCatchesPerEvent := u.replayCatch, flushInterval := u.flushInt,
+             flushBeforeLoggerErase := u.flushBeforeErase },
+    -- the calibration polls of the harness's `start` ran an idle pass at `now`: with a non-zero interval that pass
+    -- flushed (the steady clock is far from its epoch) and recorded `now` as `_last_sink_flush_time`
+    now := now, lastFlush := now, sinks := u.sinks, lgs := u.lgs,
     names := (List.range u.lgs.length).map (fun i => ((u.lgs.getD i default).gid, i)) }
 
 def runTrace : IO UInt32 := do
@@ -133,7 +168,9 @@ def runTrace : IO UInt32 := do
         | some ("reportFlush", v) => u := { u with reportFlush := v == "1" }
         | some ("keepUnreported", v) => u := { u with keepUnreported := v == "1" }
         | some ("flushInvalid", v) => u := { u with flushInvalid := v == "1" }
+        | some ("follow", v) => u := { u with follow := v == "1" }
         | some ("replayCatch", v) => u := { u with replayCatch := v == "1" }
+        | some ("flushBeforeErase", v) => u := { u with flushBeforeErase := v == "1" }
         | _ => pure ()
     | "cfg" :: rest =>
       for x in rest ++ Drv.words obsS do
@@ -141,8 +178,12 @@ def runTrace : IO UInt32 := do
         | some ("grace", v) => u := { u with grace := nat! v * 1000 }
         | some ("soft", v) => u := { u with soft := nat! v }
         | some ("hard", v) => u := { u with hard := nat! v }
-        | some ("variant", v) => u := { u with dropping := (nat! v) % 2 == 1 }
+        | some ("variant", v) =>
+          let isU := decide (2 ≤ nat! v)
+          u := { u with dropping := (nat! v) % 2 == 1, unbounded := isU }
+        | some ("qmax", v) => u := { u with qmax := nat! v }
         | some ("qcap", v) => u := { u with qcap := nat! v }
+        | some ("flushint", v) => u := { u with flushInt := nat! v * 1000000 }
         | _ => pure ()
     | "sink" :: sid :: rest =>
       let mut k : Sink := { sid := nat! sid }
@@ -184,7 +225,8 @@ def runTrace : IO UInt32 := do
       match st with
       | none => IO.println s!"NOT-STARTED line {lineNo}: {line}"; mism := mism + 1
       | some s =>
-        let (s1, res) := exec { s with out := [] } w
+        let (s1, res) := if u.unbounded then execU { qmax := u.qmax, follow := u.follow } { s with out := [] } w
+                         else exec { s with out := [] } w
         let (s2, evs) := takeEvents s1
         let mobs := if evs.isEmpty then res else s!"{res} | {evs}"
         total := total + 1
